@@ -1,4 +1,5 @@
 import ComposeVerif.Spec.Interp
+import ComposeVerif.Model.InterpCustom
 /-!
 # C08 — statements the tree falsified before the repair `fix: integer and float interpolation casts read numbers
 # like YAML does` (pre-fix behaviour = `parseIntDecimal`, i.e. `strconv.Atoi` / `ParseInt(_, 10, 64)`)
@@ -21,5 +22,28 @@ theorem decimal_casters_literal_eq_variable_false :
 theorem decimal_casters_reject_yaml_ints :
     parseIntDecimal "0x10".toList = none ∧ parseIntDecimal "0o17".toList = none ∧
     parseIntDecimal "0b11".toList = none ∧ parseIntDecimal "1_000".toList = none := by decide
+
+/-! ## still falsified by the tree: the self-decoding numeric types (recorded findings `typed:*:{devicecount,bytes,nanocpus}`)
+
+Replayed on the real code by `corpus/C08/custom-*.json`. -/
+
+/-- `gpus[].count: 0440` is 288 as a YAML literal; through a variable `DeviceCount.DecodeMapstructure` reads 440;
+    `0x10` (16 as a literal) is rejected -/
+theorem devicecount_literal_eq_variable_false : ¬ (∀ s i, yamlInt s = some i → decodeDeviceCount s = some i) := by
+  intro h
+  have := h "0440" 288 (by decide)
+  revert this
+  decide
+
+theorem devicecount_rejects_yaml_ints :
+    decodeDeviceCount "0x10" = none ∧ decodeDeviceCount "0o17" = none ∧ decodeDeviceCount "0b11" = none ∧
+    decodeDeviceCount "1_000" = none := by decide
+
+/-- byte sizes: the literal `010` is 8 (`yamlInt`), `UnitBytes.DecodeMapstructure` makes 10 of the variable
+    (`-1`, unlimited swap, is read back exactly since C09's repair 45cce70) -/
+theorem unitbytes_literal_eq_variable_false :
+    yamlInt "010" = some 8 ∧ unitBytesClass "010" = ("ok", "10") ∧
+    yamlInt "-1" = some (-1) ∧ unitBytesClass "-1" = ("ok", "-1") := by
+  refine ⟨by decide, by decide, by decide, by decide⟩
 
 end CV.Interp
